@@ -46,7 +46,7 @@ type c07Item struct {
 	G int    `json:"g,omitempty"` // generator sleeps G ticks before sending this item
 	D int    `json:"d,omitempty"` // the mapper sleeps D ticks ...
 	W int    `json:"w,omitempty"` // ... then writes W values ...
-	A string `json:"a,omitempty"` // ... then: "" | cancel | cancelnil | panic
+	A string `json:"a,omitempty"` // ... then: "" | cancel | cancelnil | panic | goexit (runtime.Goexit, what t.Fatal does: outcome unspecified)
 	V string `json:"v,omitempty"` // value of the item itself: "" int | str | struct | nil | nilptr | zero | empty | zerostruct
 	X string `json:"x,omitempty"` // values the mapper writes: "" struct{item,k} | nil | nilptr | zero | slice (uncomparable)
 	E string `json:"e,omitempty"` // error VALUE given to cancel / returned by a Finish function: "" *c07Err | eof | wrap | val | unc | noout | wrapnoout | cwn | deadline
@@ -76,6 +76,8 @@ type c07Case struct {
 	CtxAt    int       `json:"at,omitempty"`    // ticks
 	Count    int       `json:"count,omitempty"` // > len(Items): the item list is Items repeated cyclically up to Count items (big inputs from a small description)
 	Dup      bool      `json:"dup,omitempty"`   // every option is given twice, first with another value (the last one counts)
+	GenExit  bool      `json:"gx,omitempty"`    // at GenPanic the generator calls runtime.Goexit instead of panicking
+	Procs    int       `json:"procs,omitempty"` // 1|2: runtime.GOMAXPROCS during the call (set outside the bubble, restored afterwards); 0: untouched
 	Zero     bool      `json:"zero,omitempty"`  // contention mode: every delay is zero
 
 	// Not part of the case: set by c07NewRun when the delays of the case add up to
@@ -540,7 +542,17 @@ func (r *c07Run) act(a, src string, i int, err error, cancel func(error)) {
 		pv := c07PanicValue(r.panicKind(i), src, i)
 		r.log(c07Event{kind: "panic", src: src, pv: pv})
 		panic(pv)
+	case "goexit":
+		r.log(c07Event{kind: "goexit", src: src})
+		runtime.Goexit()
 	}
+}
+
+func (r *c07Run) genAct() string {
+	if r.c.GenExit {
+		return "goexit"
+	}
+	return "panic"
 }
 
 func (r *c07Run) generate(source chan<- any, mayPanic bool) {
@@ -552,7 +564,7 @@ func (r *c07Run) generate(source chan<- any, mayPanic bool) {
 	for i, it := range r.c.Items {
 		r.genSleep(it.G)
 		if mayPanic && r.c.GenPanic == i {
-			r.act("panic", "generator", i, nil, nil)
+			r.act(r.genAct(), "generator", i, nil, nil)
 		}
 		r.mu.Lock()
 		r.generated++
@@ -560,7 +572,7 @@ func (r *c07Run) generate(source chan<- any, mayPanic bool) {
 		source <- c07ItemValue(i, it.V)
 	}
 	if mayPanic && r.c.GenPanic == len(r.c.Items) {
-		r.act("panic", "generator", len(r.c.Items), nil, nil)
+		r.act(r.genAct(), "generator", len(r.c.Items), nil, nil)
 	}
 	r.genSleep(r.c.GenTail)
 }
@@ -646,8 +658,8 @@ func (r *c07Run) each(item any) {
 	r.enter(i)
 	defer r.exit()
 	r.sleep(it.D)
-	if it.A == "panic" {
-		r.act("panic", fmt.Sprintf("item%d", i), i, nil, nil)
+	if it.A == "panic" || it.A == "goexit" {
+		r.act(it.A, fmt.Sprintf("item%d", i), i, nil, nil)
 	}
 }
 
@@ -811,8 +823,8 @@ func (r *c07Run) run() {
 					case "cancel":
 						r.log(c07Event{kind: "cancel", src: fmt.Sprintf("item%d", i), err: r.errs[i]})
 						return r.errs[i]
-					case "panic":
-						r.act("panic", fmt.Sprintf("item%d", i), i, nil, nil)
+					case "panic", "goexit":
+						r.act(it.A, fmt.Sprintf("item%d", i), i, nil, nil)
 					}
 					return nil
 				}
@@ -826,8 +838,8 @@ func (r *c07Run) run() {
 					r.enter(i)
 					defer r.exit()
 					r.sleep(it.D)
-					if it.A == "panic" {
-						r.act("panic", fmt.Sprintf("item%d", i), i, nil, nil)
+					if it.A == "panic" || it.A == "goexit" {
+						r.act(it.A, fmt.Sprintf("item%d", i), i, nil, nil)
 					}
 				}
 			}
@@ -873,7 +885,7 @@ func (r *c07Run) run() {
 func (r *c07Run) disturbing(upTo time.Duration) []c07Event {
 	var d []c07Event
 	for _, e := range r.events {
-		if (e.kind == "cancel" || e.kind == "panic") && e.ts <= upTo {
+		if (e.kind == "cancel" || e.kind == "panic" || e.kind == "goexit") && e.ts <= upTo {
 			d = append(d, e)
 		}
 	}
@@ -908,6 +920,10 @@ func c07NewRun(c c07Case) *c07Run {
 }
 
 func c07Interp(t *testing.T, c c07Case) (v kit.Verdict) {
+	if c.Procs > 0 {
+		// outside the bubble; the default worker count must not depend on it
+		defer runtime.GOMAXPROCS(runtime.GOMAXPROCS(c.Procs))
+	}
 	// Reps: the verdict of a zero-delay case depends on the real schedule (e.g. on
 	// whether the pipeline is over before the caller reaches its select); tiny
 	// cases are therefore run many times.
@@ -977,6 +993,18 @@ func (r *c07Run) judge(res kit.BubbleResult) (v kit.Verdict) {
 	}
 	if c.Red.RV == "nil" {
 		cls["result:nil(unspecified)"] = true
+	}
+	if c.Procs > 0 {
+		cls[fmt.Sprintf("gomaxprocs=%d", c.Procs)] = true
+		if !c.HasW && c.Entry != "finish" && c.Entry != "finishvoid" {
+			cls[fmt.Sprintf("gomaxprocs=%d+default-workers", c.Procs)] = true
+		}
+	}
+	if !c.HasW && c.Entry != "finish" && c.Entry != "finishvoid" {
+		cls["default-workers"] = true
+		if runtime.GOMAXPROCS(0) == 1 {
+			cls["default-workers@process-gomaxprocs=1"] = true
+		}
 	}
 	fin := c.Entry == "finish" || c.Entry == "finishvoid"
 	for _, it := range c.Items {
@@ -1332,6 +1360,15 @@ func (r *c07Run) normalOutcome() string {
 // alone. Several events before the return that the statement does not order
 // (e.g. a cancel still draining a slow generator, then a ctx expiry): any of them.
 func (r *c07Run) disturbedOutcome(dist []c07Event, cls map[string]bool) string {
+	for _, e := range dist {
+		if e.kind == "goexit" {
+			// A callback left through runtime.Goexit (t.Fatal / require.* inside a
+			// callback): the statement only promises that the call returns and leaves
+			// nothing behind; what it returns is unspecified.
+			cls["goexit:"+strings.TrimRight(e.src, "0123456789")] = true
+			return ""
+		}
+	}
 	o := r.out
 	c := r.c
 	first := dist[0].ts
@@ -1581,6 +1618,13 @@ func c07Gen(zero bool) func(rt *rapid.T) c07Case {
 			}
 		}
 		c.Dup = !fin && rapid.IntRange(0, 5).Draw(rt, "dup") == 0
+		// GOMAXPROCS during the call; together with it the default worker count is frequent
+		if rapid.IntRange(0, 6).Draw(rt, "procs") == 3 {
+			c.Procs = rapid.IntRange(1, 2).Draw(rt, "nprocs")
+			if !fin && rapid.Bool().Draw(rt, "procsdefault") {
+				c.HasW, c.W = false, 0
+			}
+		}
 		// magnitudes of counts: many items / Finish functions / written values from a small description
 		if n > 0 && rapid.IntRange(0, 149).Draw(rt, "big") == 97 {
 			if fin {
@@ -1595,12 +1639,12 @@ func c07Gen(zero bool) func(rt *rapid.T) c07Case {
 			c.Red.RV = "nil"
 		}
 		if disturbed {
-			acts := []string{"cancel", "cancel", "cancelnil", "panic", "panic"}
+			acts := []string{"cancel", "cancel", "cancelnil", "panic", "panic", "goexit"}
 			switch c.Entry {
 			case "foreach", "finishvoid":
-				acts = []string{"panic"}
+				acts = []string{"panic", "panic", "goexit"}
 			case "finish":
-				acts = []string{"cancel", "cancel", "panic"}
+				acts = []string{"cancel", "cancel", "panic", "goexit"}
 			}
 			if n > 0 {
 				k := rapid.IntRange(0, 3).Draw(rt, "ndist")
@@ -1616,10 +1660,11 @@ func c07Gen(zero bool) func(rt *rapid.T) c07Case {
 				}
 			}
 			if c.hasReducer() && rapid.IntRange(0, 3).Draw(rt, "ract") == 0 {
-				c.Red.A = rapid.SampledFrom([]string{"cancel", "cancelnil", "panic"}).Draw(rt, "ra")
+				c.Red.A = rapid.SampledFrom([]string{"cancel", "cancelnil", "panic", "goexit"}).Draw(rt, "ra")
 			}
 			if !fin && c.Entry != "chan" && rapid.IntRange(0, 7).Draw(rt, "gpanic") == 0 {
 				c.GenPanic = rapid.IntRange(0, n).Draw(rt, "gp")
+				c.GenExit = rapid.IntRange(0, 3).Draw(rt, "gx") == 0
 			}
 			if !fin && rapid.IntRange(0, 9).Draw(rt, "ctxkind") < 4 {
 				c.Ctx = rapid.SampledFrom([]string{"deadline", "deadline", "cancelat", "cancelled"}).Draw(rt, "ctx")
